@@ -90,6 +90,17 @@ def gen_program(c, max_ops):
 
     for _ in range(n_ops):
         k = c.int(0, 12)
+        if k == 11 and form.startswith("seq") and c.chance(1, 3):
+            # the argument container (or a slice of it) EXTENDED by two earlier values - `t + (u, v)` or `(u, v) + t` - and some entries of
+            # the longer sequence used: one operation with the container and two further traced operands
+            lo = c.int(0, n_in - 1)
+            hi = c.int(lo + 1, n_in)
+            u_, v_ = src(), src()
+            left = c.bool()
+            picks = [c.int(0, hi - lo + 1) for _ in range(c.int(1, 4))]
+            stmts.append(["textend", lo, hi, u_, v_, left, picks, [c.choice([1.0, -0.5, 2.0, 0.25]) for _ in picks], c.bool()])
+            nvals += 1
+            continue
         if k == 11 and form.startswith("seq"):
             # the argument container is consumed through a slice (whose elements are then used) AND directly through an element, in either
             # order of creation: two consumers of one container value whose cotangents meet in the container's accumulator
@@ -169,6 +180,9 @@ def interpret(prog, inputs, be):
         elif kind == "tslice":
             trace.append(("tslice",) + tuple(map(str, st[1:])))
             vals.append(be.tslice(*st[1:]))
+        elif kind == "textend":
+            trace.append(("textend",) + tuple(map(str, st[1:])))
+            vals.append(be.textend(st[1], st[2], arg(st[3]), arg(st[4]), *st[5:]))
         elif kind == "gather":
             trace.append(("gather", tuple(st[1]), st[3]))
             vals.append(be.gather(st[1], st[2], st[3]))
@@ -263,6 +277,16 @@ class AGBackend:
             acc = acc + cf * sl[i]
         return acc
 
+    def textend(self, lo, hi, u, v, left, picks, coefs, whole):
+        t = self.x if whole else self.x[lo:hi]
+        n_t = len(t)
+        extra = (u, v) if isinstance(self.x, tuple) or type(self.x).__name__ == "SequenceBox" and isinstance(self.x._value, tuple) else [u, v]
+        ext = (extra + t) if left else (t + extra)
+        acc = 0.0
+        for i, cf in zip(picks, coefs):
+            acc = acc + cf * ext[i % (n_t + 2)]
+        return acc
+
     def ckpt(self, name, a, b, steps, residual):
         import autograd
 
@@ -343,6 +367,15 @@ class RefBackend:
     def gather(self, idxs, coefs, style):
         value = sum(cf * T.val(self.inputs[i]) for i, cf in zip(idxs, coefs))
         return self.tape.apply(("gather", None), value, [(self.inputs[i], cf) for i, cf in zip(idxs, coefs)])
+
+    def textend(self, lo, hi, u, v, left, picks, coefs, whole):
+        base = list(self.inputs) if whole else list(self.inputs[lo:hi])
+        ext = ([u, v] + base) if left else (base + [u, v])
+        terms = [(ext[i % len(ext)], cf) for i, cf in zip(picks, coefs)]
+        # the extended sequence is ONE value built from all of its operands: entries that are not read afterwards still are operands of
+        # the operation the output depends on (their producers are reached by the backward pass, with a zero cotangent)
+        terms += [(u, 0.0), (v, 0.0)] + [(b_, 0.0) for b_ in base]
+        return self.tape.apply(("textend", None), sum(cf * T.val(a) for a, cf in terms), terms)
 
     def tslice(self, lo, hi, idxs, coefs, j, cj, slice_first):
         terms = [(self.inputs[j], cj)] + [(self.inputs[lo + i], cf) for i, cf in zip(idxs, coefs)]
@@ -426,7 +459,7 @@ def body(max_ops, c):
     multi = any(len({p for p, _ in ps if p is not None}) < len([p for p, _ in ps if p is not None]) for _, ps, _ in rb.tape.entries)
     fan = any(n >= 2 and live[i] for i, n in uses.items())
     dead = any(dep[i] and not live[i] for i in range(len(live)))
-    ctrl = any(t[0] in ("if", "loop", "rec", "closure", "gather", "ckpt", "tslice") for t in rtrace)
+    ctrl = any(t[0] in ("if", "loop", "rec", "closure", "gather", "ckpt", "tslice", "textend") for t in rtrace)
     labels = [l for l, on in (("multi_edge", multi), ("fan_out", fan), ("dead_op", dead), ("control_flow", ctrl)) if on]
     labels.append("form=" + prog["form"])
     nontrivial = bool(multi or fan or dead or ctrl)
